@@ -94,6 +94,8 @@ func init() {
 		}})
 		c.R.Min("op.closure_evaluations", 200)
 		statelessPremise(c, false)
+		// the reducers / reshapes the Broadcast rule is composed of meet their element specification
+		premiseOps(c, core.PkgGrad, "Broadcast")
 		c.R.Rule("premise (delivery): the summed gradient only reaches the operand if the walk delivers it: the C01 walk obligations on the DAG templates are re-run (a walk that prunes, skips or fails leaves the operand without its sum)")
 		{
 			e := engine.NewOpEngine(c.P, c.A)
@@ -224,6 +226,7 @@ func init() {
 		fileOps(c, e, OpFilter{Keep: componentKeep})
 		// premise: the tensor operations the losses are composed of meet their element specification
 		premiseOps(c, core.PkgLosses)
+		statelessPremise(c, true)
 		c.R.Count("component.abstract_paths", e.Paths)
 		c.R.Min("component.abstract_paths", 30)
 		for fn := range e.Funcs {
@@ -252,6 +255,15 @@ func untrackedUntouched(f engine.Finding) bool {
 // function writes a field of a tensor / gradient context it did not allocate, outside the walk and
 // ResetGradContext) and S8 (no mutable package state) establish that; S13 does the same for components.
 func statelessPremise(c *Ctx, components bool) {
+	if c.statelessDone {
+		if components && !c.statelessCompDone {
+			c.statelessCompDone = true
+			rules.S13TensorRetention(c.P, c.A, c.R)
+		}
+		return
+	}
+	c.statelessDone = true
+	c.statelessCompDone = components
 	c.R.Rule("premise (statelessness): S3 field-write ownership + S4 write provenance (no write to memory the call did not allocate) + S5 no caller slice retained + S8 no mutable package state" + map[bool]string{true: " + S13 no tensor parked in component state", false: ""}[components] + ": per-call verdicts extend to call sequences (repeated use of an operand, use after ResetGradContext, a second training step)")
 	rules.S3Ownership(c.P, c.A, c.R)
 	rules.S8SharedState(c.P, c.A, c.R)
@@ -273,8 +285,8 @@ func unitTolerance(c *Ctx) {
 // premiseOps runs the labelled-element comparison for every Tensor method a component package invokes
 // (resolved from the interface-call sites of its functions): the component's formula is composed from the
 // specification of these operations, so their element-level agreement is a premise of the component property.
-func premiseOps(c *Ctx, pkg string) {
-	names := engine.TensorMethodsInvokedBy(c.P, c.A, pkg)
+func premiseOps(c *Ctx, pkg string, only ...string) {
+	names := engine.TensorMethodsInvokedBy(c.P, c.A, pkg, only...)
 	if len(names) == 0 {
 		return
 	}
@@ -293,6 +305,9 @@ func componentCheck(run func(e *engine.OpEngine, c *Ctx), minPaths int, premiseP
 		}
 		for _, pk := range premisePkgs {
 			premiseOps(c, pk)
+		}
+		if len(premisePkgs) > 0 {
+			statelessPremise(c, true)
 		}
 		c.R.Count("component.abstract_paths", e.Paths)
 		c.R.Min("component.abstract_paths", minPaths)
@@ -525,6 +540,11 @@ func init() {
 		c.R.Rule("premises re-run here: C13.gradient of CE/MSE/BCE and C15.gradient of the activations (the gradient that SGD applies is their composition), statelessness of operations and components")
 		e.RunLossGradientChecks()
 		e.RunActivationGradientChecks(2)
+		c.R.Rule("forward premises re-run here as well: loss values and validation (C12), activations (C14), FC forward and live parameters (C16), SGD update incl. a second step (C17) - a loop that follows gradient descent is a composition of all of them")
+		e.RunLossChecks()
+		e.RunActivationChecks(2)
+		e.RunFCChecks()
+		e.RunSGDChecks(1)
 		statelessPremise(c, true)
 		RunOps(c, OpFilter{Methods: []string{"Broadcast"}, Keep: func(rule, construct string) bool { return isGradRule(rule) && isBroadcastConstruct(construct) }})
 	}, 8))
